@@ -27,7 +27,10 @@ def classify(msg):
     m = msg
     if "marked free" in m or "reached twice" in m or "out of range" in m: return "C04"
     if "leak" in m or "free-block count" in m: return "C05"
-    if m.startswith("cache of dir") : return "C07"
+    if m.startswith("cache of dir"):
+        # fixed fields of a cache block (type, self pointer, parent, checksum) are format conformance; its records are coherence
+        if any(x in m for x in (" parent ", "type != T_DIRC", "headerKey != self", "bad checksum")): return "C03"
+        return "C07"
     if m.startswith("listing") or "mkdir" in m or "remove" in m or "rename" in m or "chdir" in m or m.startswith("comment") or m.startswith("access"): return "C02"
     if m.startswith("read") or m.startswith("write") or m.startswith("seek") or m.startswith("trunc") or m.startswith("stat") or m.startswith("open") or "short write" in m or m.startswith("flush"): return "C01"
     if m.startswith("decoded"): return "C03"
